@@ -12,7 +12,9 @@ def describe(kind, value_kind):
     src = {'k': 'source', 'cls': 'KS', 'ids': ['a', 'b', 'c'], 'fields': {'x': {'args': ['i']}}, 'params': {}, 'cargs': {}, 'defaults': {}}
     if value_kind == 'json':
         # a JSON-serialisable value: a table function returning lists of ints/strings
-        src['fields']['x']['table'] = [[[i], [1, 'v' + i, [2, 3]]] for i in ['a', 'b', 'c']]
+        # the values are Python LISTS (what json gives back), so a computed and a stored value are the same value
+        lst = lambda *xs: {'app': ['$list', list(xs), [], []]}
+        src['fields']['x']['table'] = [[[i], lst(1, 'v' + i, lst(2, 3))] for i in ['a', 'b', 'c']]
     labels = '+labels' in kind
     use = '+uselabels' in kind          # labels are passed to CacheToDisk.simple (the storage is the one `.simple` creates)
     kind = kind.split('+')[0]
@@ -163,9 +165,9 @@ def run_child(root, kind, value_kind, keys, crash_at=-1, half=False):
 
 
 def expected(value_kind, key):
-    from .codec import canon
+    from .codec import canon, val_to_json
     if value_kind == 'json':
-        return canon([1, 'v' + key, [2, 3]])
+        return canon(val_to_json([1, 'v' + key, [2, 3]]))        # Python lists (the codec keeps lists and tuples apart)
     return canon({'app': ['KS.x', [key], [], []]})
 
 
